@@ -607,5 +607,43 @@ theorem logJ_preCmds (H : RdHyp S U cfg) (hvi : cfg.vi = false) : ∀ (fuel : Na
         | some next => exact ih next s1 h1 hj1
       · exact hj
 
+/-! ### replay does not look at what follows the text (towards the vi abort paths: finding D49) -/
+
+theorem applyFwd_suffix {c : Change} {t t' : Text} (w : Text) (h : applyFwd c t = some t') :
+    applyFwd c (t ++ w) = some (t' ++ w) := by
+  cases c with
+  | begin => simp only [applyFwd] at h ⊢; cases h; rfl
+  | end_ => simp only [applyFwd] at h ⊢; cases h; rfl
+  | insert idx s =>
+    obtain ⟨x, z, rfl, hi, rfl⟩ := applyFwd_insert.mp h
+    exact applyFwd_insert.mpr ⟨x, z ++ w, by simp, hi, by simp⟩
+  | delete idx s =>
+    obtain ⟨x, z, rfl, hi, rfl⟩ := applyFwd_delete.mp h
+    exact applyFwd_delete.mpr ⟨x, z ++ w, by simp, hi, by simp⟩
+  | replace idx o n =>
+    obtain ⟨x, z, rfl, hi, rfl⟩ := applyFwd_replace.mp h
+    exact applyFwd_replace.mpr ⟨x, z ++ w, by simp, hi, by simp⟩
+
+/-- a log that replays `t` to `t'` replays `t ++ w` to `t' ++ w` -/
+theorem replayLog_suffix : ∀ (l : List Change) {t t' : Text} (w : Text), replayLog l t = some t' →
+    replayLog l (t ++ w) = some (t' ++ w) := by
+  intro l
+  induction l with
+  | nil => intro t t' w h; simp only [replayLog] at h ⊢; cases h; rfl
+  | cons c l ih =>
+    intro t t' w h
+    simp only [replayLog] at h ⊢
+    split at h
+    · rename_i t1 h1
+      rw [applyFwd_suffix w h1]
+      exact ih w h
+    · cases h
+
+/-- the undo-log invariant follows when the log replays to a PREFIX of the line (what is left after a
+    vi-mode abort into whose lower entries the listener had merged: the replayed text may be shorter) -/
+theorem undoLogInv_of_prefix {s : Ed} {t0 p w : Text} (h : replayLog s.changes.undos.reverse t0 = some p)
+    (hl : s.line.buf = p ++ w) : UndoLogInv s :=
+  ⟨t0 ++ w, by rw [hl]; exact replayLog_suffix _ w h⟩
+
 end
 end Rl
